@@ -13,8 +13,8 @@ use std::{
     collections::BTreeMap,
     future::Future,
     pin::Pin,
-    sync::{Arc, Mutex},
-    task::{Context, Poll},
+    sync::{Arc, Mutex, atomic::{AtomicU64, Ordering}},
+    task::{Context, Poll, Wake, Waker},
 };
 
 use bytes::Bytes;
@@ -79,8 +79,33 @@ fn fill<R: qbase::role::IntoRole + Default>(p: &mut RoleParams<R>, win: [u64; 3]
     Ok(())
 }
 
+/// Counts how often it is woken.
+struct CountWaker(AtomicU64);
+impl Wake for CountWaker {
+    fn wake(self: Arc<Self>) {
+        self.0.fetch_add(1, Ordering::SeqCst);
+    }
+    fn wake_by_ref(self: &Arc<Self>) {
+        self.0.fetch_add(1, Ordering::SeqCst);
+    }
+}
+
+/// The peer's transport parameters while they have not been handed to `ArcParameters` yet.
+enum Peer {
+    Client(ClientParameters),
+    Server(ServerParameters),
+}
+
 pub struct Ep {
     role: Role,
+    // ---- the peer's transport parameters arrive later (`einitlate`) ----
+    late: Option<Peer>,         // not yet given to `recv_remote_params`
+    peer_cid: ConnectionId,
+    got_params: bool,
+    got_scid: bool,
+    ready: bool,                // monitor view: both happened
+    accept_waiting: [Option<Arc<CountWaker>>; 2], // waker of the last accept poll that returned Pending
+    accept_polls: [u64; 2],
     ds: DataStreams<Rec12>,
     params: ArcParameters,
     rec: Rec12,
@@ -89,6 +114,7 @@ pub struct Ep {
     keep_w: Vec<Writer<Ext<Rec12>>>,
     // ---- monitor state (RFC view only) ----
     granted: [u64; 2],          // what the peer allows us
+    late_granted: [u64; 2],     // … once its parameters are ready
     opened: [u64; 2],
     advertised: [u64; 2],       // what we allowed the peer (largest ever)
     offered: [u64; 2],          // number of peer streams handed to the application, per kind
@@ -129,6 +155,13 @@ fn cx() -> Context<'static> {
 /// local parameters and the all-default peer parameters, then `revise_params(false, peer parameters)`.
 /// `Err` = a panic on the way (message).
 pub fn endpoint(role: Role, lb: u64, lu: u64, pb: u64, pu: u64, win: [u64; 3], strat: Strat) -> Result<Ep, String> {
+    endpoint_with(role, lb, lu, pb, pu, win, strat, false)
+}
+
+/// `late`: stop before the peer's transport parameters are received — the real `ArcParameters` stays in its
+/// pending state (`get_remote` = `None`, `poll_ready` = `Pending`) until `Ep::rparams` and `Ep::rscid` ran
+/// (TLS and packet parsing run in parallel: frames and `accept_*` polls can come first).
+pub fn endpoint_with(role: Role, lb: u64, lu: u64, pb: u64, pu: u64, win: [u64; 3], strat: Strat, late: bool) -> Result<Ep, String> {
     let rec = Rec12::default();
     let wakers = ArcSendWakers::default();
     let odcid = ConnectionId::from_slice(&[7u8; 8]);
@@ -152,29 +185,43 @@ pub fn endpoint(role: Role, lb: u64, lu: u64, pb: u64, pu: u64, win: [u64; 3], s
         if role == Role::Client {
             let ds = DataStreams::new(Role::Client, &cp, &ServerParameters::default(), strat.make(lb, lu), rec2.clone(), wakers.clone(), None);
             let mut ps = qbase::param::Parameters::new_client(cp, None, odcid);
+            if late {
+                return Ok::<_, String>((ds, ArcParameters::from(ps), Some(Peer::Server(sp)), sscid));
+            }
             ps.recv_remote_params(sp.clone()).map_err(|e| format!("params:{e}"))?;
             ps.initial_scid_from_peer_need_equal(sscid).unwrap();
             ds.revise_params(false, &sp);
-            Ok::<_, String>((ds, ArcParameters::from(ps)))
+            Ok::<_, String>((ds, ArcParameters::from(ps), None, sscid))
         } else {
             let ds = DataStreams::new(Role::Server, &sp, &ClientParameters::default(), strat.make(lb, lu), rec2.clone(), wakers.clone(), None);
             let mut ps = qbase::param::Parameters::new_server(sp);
+            if late {
+                return Ok((ds, ArcParameters::from(ps), Some(Peer::Client(cp)), cscid));
+            }
             ps.recv_remote_params(cp.clone()).map_err(|e| format!("params:{e}"))?;
             ps.initial_scid_from_peer_need_equal(cscid).unwrap();
             ds.revise_params(false, &cp);
-            Ok((ds, ArcParameters::from(ps)))
+            Ok((ds, ArcParameters::from(ps), None, cscid))
         }
     });
     match r {
-        Ok(Ok((ds, params))) => Ok(Ep {
+        Ok(Ok((ds, params, peer, peer_cid))) => Ok(Ep {
             role,
+            late: peer,
+            peer_cid,
+            got_params: !late,
+            got_scid: !late,
+            ready: !late,
+            accept_waiting: [None, None],
+            accept_polls: [0, 0],
             ds,
             params,
             rec,
             strat,
             keep_r: vec![],
             keep_w: vec![],
-            granted: [pb, pu],
+            granted: if late { [0, 0] } else { [pb, pu] },
+            late_granted: [pb, pu],
             opened: [0, 0],
             advertised: [lb, lu],
             offered: [0, 0],
@@ -421,6 +468,7 @@ impl Ep {
             }
         }
         sink.line(&op, &obs);
+        self.check_accept_woken(sink);
     }
 
     fn maxstreams(&mut self, sink: &mut Sink, dir: Dir, v: u64) {
@@ -456,6 +504,8 @@ impl Ep {
     /// The application accepts everything the listener holds.
     fn drain(&mut self, sink: &mut Sink) {
         sink.pending("drain");
+        // the listener keeps only the waker of the LAST poll: these polls supersede a waiting single accept
+        self.accept_waiting = [None, None];
         let mut bi = vec![];
         let mut uni = vec![];
         loop {
@@ -482,14 +532,11 @@ impl Ep {
         // RFC 9000 §3.2 + the property: each peer stream is offered exactly once, lower-numbered ones first
         for (i, (list, d)) in [(&bi, Dir::Bi), (&uni, Dir::Uni)].into_iter().enumerate() {
             for v in list.iter() {
-                let want = (self.offered[i] << 2) | ((d as u64) << 1) | (self.peer() as u64);
-                if *v != want {
-                    let key = if *v < want { "implicit_open:dup" } else { "implicit_open:gap" };
-                    sink.monitor_fail(key, &format!("accept_{} yielded stream {} where {} was due", dn(d), v, want));
-                }
-                self.offered[i] = self.offered[i].max((*v >> 2) + 1);
+                self.note_accepted(sink, d, *v);
             }
-            if self.offered[i] < self.used_hi[i] {
+            // bidirectional streams cannot be handed out before the peer's parameters are ready (their send
+            // window is unknown): nothing is due yet, but nothing may be lost either (checked once ready)
+            if (d == Dir::Uni || self.ready) && self.offered[i] < self.used_hi[i] {
                 sink.monitor_fail("implicit_open:missing", &format!("peer used {} stream index {} but only {} streams were offered to the application", dn(d), self.used_hi[i] - 1, self.offered[i]));
             }
         }
@@ -498,10 +545,155 @@ impl Ep {
     }
 }
 
+impl Ep {
+    /// One stream came out of `accept_*`: it must be the lowest peer stream of its kind not handed out yet.
+    fn note_accepted(&mut self, sink: &mut Sink, d: Dir, v: u64) {
+        let i = d as usize;
+        let want = (self.offered[i] << 2) | ((d as u64) << 1) | (self.peer() as u64);
+        if v != want {
+            let key = if v < want { "implicit_open:dup" } else { "implicit_open:gap" };
+            sink.monitor_fail(key, &format!("accept_{} yielded stream {} where {} was due", dn(d), v, want));
+        }
+        self.offered[i] = self.offered[i].max((v >> 2) + 1);
+    }
+
+    /// ONE poll of `accept_bi` / `accept_uni` with a fresh counting waker.
+    fn accept(&mut self, sink: &mut Sink, d: Dir) {
+        let i = d as usize;
+        let op = format!("accept{}", dn(d));
+        sink.pending(&op);
+        let cw = Arc::new(CountWaker(AtomicU64::new(0)));
+        let waker = Waker::from(cw.clone());
+        let mut cx = Context::from_waker(&waker);
+        self.accept_polls[i] += 1;
+        let got = match d {
+            Dir::Bi => {
+                let mut fut = self.ds.accept_bi(&self.params);
+                match Pin::new(&mut fut).poll(&mut cx) {
+                    Poll::Ready(Ok((sid, (r, w)))) => { self.keep_r.push(r); self.keep_w.push(w); Some(u64::from(sid)) }
+                    _ => None,
+                }
+            }
+            Dir::Uni => {
+                let mut fut = self.ds.accept_uni();
+                match Pin::new(&mut fut).poll(&mut cx) {
+                    Poll::Ready(Ok((sid, r))) => { self.keep_r.push(r); Some(u64::from(sid)) }
+                    _ => None,
+                }
+            }
+        };
+        match got {
+            Some(v) => {
+                sink.branch(&format!("accept:{}:{}", dn(d), if self.ready { "ready" } else { "before_params" }));
+                if d == Dir::Bi && !self.ready {
+                    sink.monitor_fail("accept_bi:before_params_ready", &format!("accept_bi yielded stream {} although the peer's transport parameters (its send window) are not known yet", v));
+                }
+                self.accept_waiting[i] = None;
+                self.note_accepted(sink, d, v);
+                sink.line(&op, &format!("sid={}", v));
+            }
+            None => {
+                let due = self.used_hi[i] > self.offered[i];
+                sink.branch(&format!("accept:{}:pending:{}", dn(d), if !due { "nothing_due" } else if self.ready { "due" } else { "due_before_params" }));
+                if due && (d == Dir::Uni || self.ready) {
+                    sink.monitor_fail("implicit_open:withheld", &format!("accept_{} is Pending although peer stream index {} was opened and never offered", dn(d), self.offered[i]));
+                }
+                self.accept_waiting[i] = Some(cw);
+                sink.line(&op, "pending");
+            }
+        }
+    }
+
+    /// A waiting `accept_*` whose stream has become available must have been woken (no lost wake-up).
+    fn check_accept_woken(&mut self, sink: &mut Sink) {
+        for (i, d) in [(0usize, Dir::Bi), (1usize, Dir::Uni)] {
+            if let Some(cw) = &self.accept_waiting[i] {
+                if self.used_hi[i] > self.offered[i] && (d == Dir::Uni || self.ready) && cw.0.load(Ordering::SeqCst) == 0 {
+                    sink.monitor_fail(&format!("accept_{}:lost_wakeup", dn(d)), &format!("accept_{} returned Pending, peer stream index {} is available now, its waker was never woken", dn(d), self.offered[i]));
+                    self.accept_waiting[i] = None;
+                }
+            }
+        }
+    }
+
+    fn became_ready(&mut self) -> bool {
+        if self.got_params && self.got_scid && !self.ready {
+            self.ready = true;
+            self.granted = [self.granted[0].max(self.late_granted[0]), self.granted[1].max(self.late_granted[1])];
+            true
+        } else {
+            false
+        }
+    }
+
+    fn peer_clone(&self) -> Option<Peer> {
+        match &self.late {
+            Some(Peer::Client(c)) => Some(Peer::Client(c.clone())),
+            Some(Peer::Server(p)) => Some(Peer::Server(p.clone())),
+            None => None,
+        }
+    }
+
+    /// `Parameters::recv_remote_params(peer parameters)` (`scid = false`, the TLS side) or
+    /// `Parameters::initial_scid_from_peer_need_equal(cid)` (`scid = true`, the peer's first Initial packet was
+    /// parsed), in either order; the connection reacts to "ready" with `DataStreams::revise_params(false, peer)`.
+    fn params_event(&mut self, sink: &mut Sink, scid: bool) {
+        if (scid && self.got_scid) || (!scid && self.got_params) { return; }
+        let Some(peer) = self.peer_clone() else { return };
+        let op = if scid { "rscid" } else { "rparams" };
+        sink.pending(op);
+        let params = self.params.clone();
+        let ds = self.ds.clone();
+        let cid = self.peer_cid;
+        if scid { self.got_scid = true } else { self.got_params = true }
+        let r = catch(move || {
+            let mut g = params.lock_guard().map_err(|e| e.to_string())?;
+            if scid {
+                g.initial_scid_from_peer_need_equal(cid).map_err(|e| e.to_string())?;
+            } else {
+                match &peer {
+                    Peer::Client(cp) => g.recv_remote_params(cp.clone()).map_err(|e| e.to_string())?,
+                    Peer::Server(sp) => g.recv_remote_params(sp.clone()).map_err(|e| e.to_string())?,
+                }
+            }
+            let rdy = g.is_remote_params_ready();
+            drop(g);
+            if rdy {
+                match &peer {
+                    Peer::Client(cp) => ds.revise_params(false, cp),
+                    Peer::Server(sp) => ds.revise_params(false, sp),
+                }
+            }
+            Ok::<bool, String>(rdy)
+        });
+        self.params_line(sink, op, r);
+    }
+
+    fn params_line(&mut self, sink: &mut Sink, op: &str, r: Result<Result<bool, String>, String>) {
+        match r {
+            Ok(Ok(rdy)) => {
+                self.became_ready();
+                if rdy != self.ready {
+                    sink.monitor_fail("params_ready_mismatch", &format!("{}: is_remote_params_ready = {} but parameters received = {}, scid known = {}", op, rdy, self.got_params, self.got_scid));
+                }
+                sink.branch(&format!("{}:ready={}", op, rdy as u8));
+                sink.line(op, &format!("ok ready={}", rdy as u8));
+                self.check_accept_woken(sink);
+            }
+            Ok(Err(e)) => sink.line(&format!("# {}", op), &format!("refused {}", e)),
+            Err(_) => { sink.monitor_fail(&format!("panic:{}", op), "panicked"); sink.line(op, "PANIC"); }
+        }
+    }
+}
+
 fn einit(sink: &mut Sink, role: Role, lb: u64, lu: u64, pb: u64, pu: u64, win: [u64; 3], strat: Strat) -> Option<Ep> {
-    let op = format!("einit {} {} {} {} {} {},{},{} {}", rn(role), lb, lu, pb, pu, win[0], win[1], win[2], strat.name());
+    einit_with(sink, role, lb, lu, pb, pu, win, strat, false)
+}
+
+fn einit_with(sink: &mut Sink, role: Role, lb: u64, lu: u64, pb: u64, pu: u64, win: [u64; 3], strat: Strat, late: bool) -> Option<Ep> {
+    let op = format!("{} {} {} {} {} {} {},{},{} {}", if late { "einitlate" } else { "einit" }, rn(role), lb, lu, pb, pu, win[0], win[1], win[2], strat.name());
     sink.pending(&op);
-    match endpoint(role, lb, lu, pb, pu, win, strat) {
+    match endpoint_with(role, lb, lu, pb, pu, win, strat, late) {
         Ok(e) => {
             sink.line(&op, "ok");
             Some(e)
@@ -523,7 +715,10 @@ fn case_random(sink: &mut Sink, rng: &mut Rng) {
     let (lb, lu, pb, pu) = (rng.below(6), rng.below(6), rng.below(5), rng.below(5));
     let w = |rng: &mut Rng| *rng.pick(&[0u64, 40, 120, 300, 300, 1000]);
     let win = [w(rng), w(rng), w(rng)];
-    let Some(mut e) = einit(sink, role, lb, lu, pb, pu, win, strat) else { return };
+    // one case in three starts BEFORE the peer's transport parameters are received (TLS and packet parsing run
+    // in parallel): peer frames, accept polls and the two halves of "parameters ready" interleave freely
+    let late = rng.chance(1, 3);
+    let Some(mut e) = einit_with(sink, role, lb, lu, pb, pu, win, strat, late) else { return };
     let peer = other(role);
     let n = rng.range(6, 36);
     // what the generator (playing the peer) has sent per stream: (largest end, final size)
@@ -547,6 +742,15 @@ fn case_random(sink: &mut Sink, rng: &mut Rng) {
             }
         };
         let sid = (idx << 2) | ((dir as u64) << 1) | (r as u64);
+        if late && !e.ready && rng.chance(1, 7) {
+            let scid = rng.chance(1, 2);
+            e.params_event(sink, scid);
+            continue;
+        }
+        if rng.chance(1, 6) {
+            e.accept(sink, dir);
+            continue;
+        }
         match rng.below(20) {
             0..=1 => e.open(sink, dir),
             2 => {
@@ -599,6 +803,10 @@ fn case_random(sink: &mut Sink, rng: &mut Rng) {
             }
         }
     }
+    // end of the case: the parameters arrive at the latest now; then the application accepts everything — every
+    // peer stream index below the highest one used must have come out of accept exactly once (monitors in `drain`)
+    e.params_event(sink, false);
+    e.params_event(sink, true);
     e.drain(sink);
     if frames >= 3 {
         sink.nontrivial();
